@@ -144,6 +144,9 @@ def check(run):
             okc = base.op == 'mu' or base.op == 'store' or any(x.op == 'mu' for x in unwrap_gamma(base))
     run.check(okc, 'PAIRED', 'DHTV: centroid = mean over the segment bins of the CURRENT features', fn.loc(), '', 'the time centroid is not np.mean(features[:, start:end, :], axis=1) of the running features',
               construct=f'PAIRED::{q}::centroid')
+    # ... as a fraction: not truncated into a buffer of the mask's (possibly integer) dtype
+    from ..opt import check_result_buffers
+    check_result_buffers(run, A, ('pb_bss.permutation_alignment',))
     # the bins that are re-assigned are exactly the bins the centroid was averaged over: `for f in range(start, end)` with the bounds of features[:, start:end, :]
     if okc:
         from ..walk import loop_role, index_extent
